@@ -194,7 +194,13 @@ func (g *G) Num(d int, t string) ex {
 	}
 	switch n := g.pick(20); {
 	case n < 4: // the inc/dec shapes
-		return bin([]string{"+", "-"}[g.pickSub(t)], 4, g.Num(d-1, t), ex{"1", 7})
+		op := []string{"+", "-"}[g.pickSub(t)]
+		if t == "uint" && op == "-" {
+			// unsigned subtraction only from a variable (kept >= 6 by the input grid): no wrap-around,
+			// which the property lets integer reasoning ignore
+			return bin(op, 4, g.variable(t), ex{"1", 7})
+		}
+		return bin(op, 4, g.Num(d-1, t), ex{"1", 7})
 	case n < 7:
 		return bin("+", 4, g.Num(d-1, t), g.Num(d-1, t))
 	case n < 9:
@@ -388,6 +394,9 @@ func (g *G) incdecShape(d int) ex {
 	sub := "-"
 	if t == "uint" && g.chance(60) {
 		sub = "+"
+	}
+	if t == "uint" && sub == "-" {
+		x, y = g.variable(t), g.variable(t)
 	}
 	op := []string{">", ">=", "<", "<="}[g.pick(4)]
 	switch g.pick(6) {
